@@ -9,12 +9,13 @@ sys.path.insert(0, os.path.join(vlib.VERIF, "gen"))
 import render  # noqa: E402
 
 
-def tlc_eval(progs, workers=None, timeout=900, cfg="AldorSem"):
-    """Returns (dict id -> {"out": text, "status": s, "atoms": [...]}, TlcResult)."""
+def tlc_eval(progs, workers=None, timeout=900, cfg="AldorSem", module="AldorSem"):
+    """Returns (dict id -> {"out": text, "status": s, "atoms": [...]}, TlcResult).
+    module: a module that EXTENDS AldorSem (e.g. AldorSemW32: 32-bit machine integer), with its own cfg."""
     d = vlib.scratch("progs")
     path = os.path.join(d, "progs.ndjson")
     vlib.write_ndjson(path, progs)
-    res = vlib.tlc("AldorSem", cfg, workers=workers, env={"PROGS": path}, timeout=timeout)
+    res = vlib.tlc(module, cfg, workers=workers, env={"PROGS": path}, timeout=timeout)
     out = {}
     for line in res.printed:
         if isinstance(line, str) and line.startswith("BEHAV "):
@@ -36,17 +37,103 @@ import concurrent.futures
 import subprocess
 
 
-def run_program(build, prog, route, workdir, qlevel=None, extra_args=(), timeout=60, env=None):
-    """Render prog into workdir/<id>.as and run it by route 'interp' or 'c'.
-    Returns dict(rc, out, err, phase) where phase tells where a failure happened."""
-    name = prog["id"]
+# ---- dialects (gen/render.py): the library a rendering is written against ----
+_LIBALDOR = os.path.join(vlib.REPO, "aldor/lib/aldor")
+DIALECT_ARGS = {
+    "axllib": [],
+    "libaldor": ["-I" + os.path.join(_LIBALDOR, "include"), "-Y" + os.path.join(_LIBALDOR, "src"),
+                 "-Y" + os.path.join(vlib.REPO, "aldor/aldor/lib/libfoamlib/al")],
+}
+# the shipped Java run time and class archives (products of the repository's own build)
+JAVA_JARS = [os.path.join(vlib.REPO, p) for p in ("aldor/aldor/lib/java/src/foamj.jar", "aldor/aldor/lib/libfoam/al/foam.jar",
+                                                  "aldor/aldor/lib/libfoamlib/al/foamlib.jar", "aldor/lib/aldor/src/aldor.jar")]
+JAVA_BATCH = 24      # programs per javac invocation (javac start-up is about 2 s)
+
+
+def dialect_of(prog):
+    return prog.get("render_opts", {}).get("dialect") or "axllib"
+
+
+def _res(rc, out, err, phase, to, d, **kw):
+    r = {"rc": rc, "out": out.decode(errors="replace") if isinstance(out, bytes) else out,
+         "err": err.decode(errors="replace") if isinstance(err, bytes) else err, "phase": phase, "timeout": to, "dir": d}
+    r.update(kw)
+    return r
+
+
+def _jobdir(prog, route, workdir, qlevel, extra_args):
     tag = "".join(c if c.isalnum() else "_" for c in "".join(extra_args))
-    d = os.path.join(workdir, name + "-" + route + ("-q%s" % qlevel if qlevel is not None else "") + tag)
+    d = os.path.join(workdir, prog["id"] + "-" + route + ("-q%s" % qlevel if qlevel is not None else "") + tag)
     os.makedirs(d, exist_ok=True)
+    return d
+
+
+def java_unit(prog, qlevel, extra_args=()):
+    """Name of the compilation unit = name of the Java class aldorcode.<unit>; unique per (program, options)
+    so that many units can be handed to one javac and share one class directory."""
+    tag = "".join(c if c.isalnum() else "_" for c in "".join(extra_args))
+    return "u_" + "".join(c if c.isalnum() else "_" for c in prog["id"]) + ("_q%s" % qlevel if qlevel is not None else "") + tag
+
+
+def java_emit(build, prog, workdir, qlevel=None, extra_args=(), timeout=60, env=None):
+    """Step 1 of route 'java': aldor -Jmain -Fjava <unit>.as.  Returns a job record; job["res"] is set iff it failed."""
+    d = _jobdir(prog, "java", workdir, qlevel, extra_args)
+    unit = java_unit(prog, qlevel, extra_args)
+    with open(os.path.join(d, unit + ".as"), "w") as fh:
+        fh.write(render.render(prog))
+    q = ["-Q%s" % qlevel] if qlevel is not None else []
+    rc, out, err, to = vlib.aldor(build, DIALECT_ARGS[dialect_of(prog)] + q + list(extra_args) + ["-Jmain", "-Fjava", unit + ".as"],
+                                  d, timeout=timeout, env=env)
+    job = {"dir": d, "unit": unit, "java": os.path.join(d, "aldorcode", unit + ".java"), "res": None, "classes": None}
+    if rc != 0 or to or not os.path.exists(job["java"]):
+        job["res"] = _res(rc, out, err, "compile", to, d)
+    return job
+
+
+def java_compile(jobs, classdir, timeout=600):
+    """Step 2: one javac for all jobs against the shipped jars; on failure every job is compiled on its own so that
+    the failure is attributed to the unit that causes it.  Sets job["classes"] or job["res"] (phase 'javac')."""
+    jobs = [j for j in jobs if j["res"] is None]
+    if not jobs:
+        return
+    os.makedirs(classdir, exist_ok=True)
+    cmd = ["javac", "-nowarn", "-cp", ":".join(JAVA_JARS), "-d", classdir] + [j["java"] for j in jobs]
+    rc, out, err, to = vlib.run(cmd, cwd=classdir, timeout=timeout)
+    if rc == 0 and not to:
+        for j in jobs:
+            j["classes"] = classdir
+        return
+    if len(jobs) == 1:
+        jobs[0]["res"] = _res(rc, out, err, "javac", to, jobs[0]["dir"])
+        return
+    for i, j in enumerate(jobs):
+        java_compile([j], os.path.join(classdir, "single%d" % i), timeout=timeout)
+
+
+def java_run(job, timeout=60, env=None):
+    """Step 3: java -cp <classes>:<jars> aldorcode.<unit>."""
+    if job["res"] is not None:
+        return job["res"]
+    rc, out, err, to = vlib.run(["java", "-Xss64m", "-XX:TieredStopAtLevel=1", "-XX:+UseSerialGC", "-cp",
+                                 ":".join([job["classes"]] + JAVA_JARS), "aldorcode." + job["unit"]],
+                                cwd=job["dir"], timeout=timeout, env=env)
+    job["res"] = _res(rc, out, err, "run", to, job["dir"])
+    return job["res"]
+
+
+def run_program(build, prog, route, workdir, qlevel=None, extra_args=(), timeout=60, env=None):
+    """Render prog into workdir/<id>.as and run it by route 'interp', 'ao', 'c' or 'java'.
+    Returns dict(rc, out, err, phase) where phase tells where a failure happened
+    (java: 'compile' = aldor -Fjava, 'javac', 'run')."""
+    if route == "java":
+        job = java_emit(build, prog, workdir, qlevel, extra_args, timeout, env)
+        java_compile([job], os.path.join(job["dir"], "classes"))
+        return java_run(job, timeout, env)
+    d = _jobdir(prog, route, workdir, qlevel, extra_args)
     src = os.path.join(d, "p.as")
     with open(src, "w") as fh:
         fh.write(render.render(prog))
-    q = ["-Q%s" % qlevel] if qlevel is not None else []
+    q = DIALECT_ARGS[dialect_of(prog)] + (["-Q%s" % qlevel] if qlevel is not None else [])
     if route == "interp":
         rc, out, err, to = vlib.aldor(build, q + list(extra_args) + ["-Ginterp", "p.as"], d, timeout=timeout, env=env)
         return {"rc": rc, "out": out.decode(errors="replace"), "err": err.decode(errors="replace"), "phase": "interp", "timeout": to, "dir": d}
@@ -55,7 +142,7 @@ def run_program(build, prog, route, workdir, qlevel=None, extra_args=(), timeout
         rc, out, err, to = vlib.aldor(build, q + list(extra_args) + ["-Fao", "p.as"], d, timeout=timeout, env=env)
         if rc != 0 or to or not os.path.exists(os.path.join(d, "p.ao")):
             return {"rc": rc, "out": out.decode(errors="replace"), "err": err.decode(errors="replace"), "phase": "compile", "timeout": to, "dir": d}
-        rc, out, err, to = vlib.aldor(build, q + list(extra_args) + ["-laxllib", "-Ginterp", "p.ao"], d, timeout=timeout, env=env)
+        rc, out, err, to = vlib.aldor(build, q + list(extra_args) + ["-laldor" if dialect_of(prog) == "libaldor" else "-laxllib", "-Ginterp", "p.ao"], d, timeout=timeout, env=env)
         return {"rc": rc, "out": out.decode(errors="replace"), "err": err.decode(errors="replace"), "phase": "interp", "timeout": to, "dir": d}
     if route == "c":
         rc, out, err, to = vlib.aldor(build, q + list(extra_args) + ["-Fc", "-Fmain", "p.as"], d, timeout=timeout, env=env)
@@ -69,11 +156,31 @@ def run_program(build, prog, route, workdir, qlevel=None, extra_args=(), timeout
     raise ValueError(route)
 
 
-def run_many(build, jobs, workdir, nproc=None):
-    """jobs: list of (prog, route, qlevel, extra_args). Returns list of results in order."""
+def run_many(build, jobs, workdir, nproc=None, timeout=60):
+    """jobs: list of (prog, route, qlevel, extra_args). Returns list of results in order.
+    Jobs of route 'java' are emitted in parallel, compiled by javac in batches of JAVA_BATCH, and run in parallel."""
+    results = [None] * len(jobs)
     with concurrent.futures.ThreadPoolExecutor(max_workers=nproc or vlib.NCPU) as ex:
-        futs = [ex.submit(run_program, build, p, route, workdir, q, xa) for (p, route, q, xa) in jobs]
-        return [f.result() for f in futs]
+        futs = {i: ex.submit(run_program, build, p, route, workdir, q, xa, timeout)
+                for i, (p, route, q, xa) in enumerate(jobs) if route != "java"}
+        jidx = [i for i, j in enumerate(jobs) if j[1] == "java"]
+        jf = {i: ex.submit(java_emit, build, jobs[i][0], workdir, jobs[i][2], jobs[i][3], timeout) for i in jidx}
+        jj = {i: f.result() for i, f in jf.items()}
+        units = {}
+        for i in jidx:       # a unit name must be unique inside a class directory
+            if units.setdefault(jj[i]["unit"], i) != i:
+                raise vlib.MachineryError("java route: two jobs share the unit name %s" % jj[i]["unit"])
+        batches = [jidx[k:k + JAVA_BATCH] for k in range(0, len(jidx), JAVA_BATCH)]
+        cf = [ex.submit(java_compile, [jj[i] for i in b], os.path.join(workdir, "jclasses", "b%d_%d" % (n, os.getpid())))
+              for n, b in enumerate(batches)]
+        for f in cf:
+            f.result()
+        rf = {i: ex.submit(java_run, jj[i], timeout) for i in jidx}
+        for i, f in futs.items():
+            results[i] = f.result()
+        for i, f in rf.items():
+            results[i] = f.result()
+    return results
 
 
 def exit_class(status):
